@@ -902,7 +902,9 @@ def _resolve(host, op, spares=None):
                 if is_root and not _is_comp(c) and hasattr(c.outputs, "o") and not any(ch.connected for ch in c.inputs):
                     ch = next((ch for ch in c.inputs if _code(ch.value) is not None), None)
                     if ch is not None:
-                        cands.append(["handrun", path, c.label, ch.label, op[2]])
+                        # another value than the one it holds: with the same value the child answers from its own cache,
+                        # which is no run at all
+                        cands.append(["handrun", path, c.label, ch.label, op[2] if _code(ch.value) != op[2] else op[2] + 1])
             elif kind == "exec":
                 if hasattr(c.outputs, "o"):
                     cands.append(["exec", path, c.label, op[2]])
@@ -1552,14 +1554,17 @@ def _run_ser_case(case):
                 return "unit"
             if op == "zrun":
                 if not n.running:
-                    n.executor = None
+                    n.executor, n._serialize_result = None, False  # only executor jobs serialize their result
                 return _res(n.run())
             if op == "zsubmit":
                 if not n.running:
-                    n.executor = ex
+                    n.executor, n._serialize_result = ex, True
                 return _res(n.run())
             if op == "zwork":
-                ex.work()
+                from pathlib import Path
+
+                if not any(Path(n.label).rglob("*.tmp")):  # a result file of an abandoned job is in the way: wait
+                    ex.work()
                 return "unit"
             if op == "zdeliver":
                 ex.deliver()
